@@ -264,6 +264,8 @@ func checkC18(c *Ctx) {
 	c.Clause("each fallible start-up step's error edge reaches Fatal before the listener starts")
 	c.Clause("every option a plugin factory looks up and validates reaches a result of the factory on every accepting path (a value validated and then shadowed or dropped is reported); options the README documents with a default may be omitted and then take that default")
 	c.Clause("a backend address is accepted only as an http(s) URL with a host; an omitted log level is tested before zerolog.ParseLevel (which maps \"\" to NoLevel without error); the listener's start error reaches main")
+	c.Clause("every complete configuration example in README.md loads: each scalar lies in the validator's accept region, and every option an enabled section leaves out is acceptable as zero / empty")
+	c.Clause("a pattern taken from the configuration and registered on a ServeMux next to constant patterns (metrics path next to /health) is refused by validation when it equals one of them (the mux would panic at start-up)")
 	c.NotDecided("README prose beyond the enumerations above; yaml.v3 decoding itself; that an accepted configuration yields a working proxy")
 
 	// 1. completeness of validation
@@ -776,6 +778,8 @@ func checkC18(c *Ctx) {
 	for _, file := range []string{"helios.yaml", "helios.docker.yaml"} {
 		c.shippedConfig(filepath.Join(p.RepoDir, file), file, regions, v, levels, formats, registered, accepted)
 	}
+	c.documentedExamplesAccepted(regions)
+	c.muxPatternsCannotCollide()
 
 	// 6. start-up
 	c.mainFatal()
@@ -866,7 +870,11 @@ func readFlatYAML(path string) ([]yamlScalar, error) {
 	if err != nil {
 		return nil, err
 	}
-	text := strings.TrimPrefix(string(b), "\ufeff")
+	return readFlatYAMLText(string(b))
+}
+
+func readFlatYAMLText(content string) ([]yamlScalar, error) {
+	text := strings.TrimPrefix(content, "\ufeff")
 	type lvl struct {
 		indent int
 		key    string
@@ -1199,4 +1207,221 @@ func (c *Ctx) strategyKeyAgreement() {
 	} else {
 		c.Fail("enum-agreement", construct, p.Pos(val.Pos()), bad[0], bad...)
 	}
+}
+
+// documentedExamplesAccepted: the README presents complete configurations (fenced yaml blocks with a
+// top-level `backends:`) as ready to use.  Each has to load: every scalar inside the validator's accept
+// region, and — what the shipped files never exercise — every option that an *enabled* section leaves
+// out decodes as zero or "", which has to be acceptable as well (the consumers have defaults for all
+// of them).  One obligation per example and option, so that a known finding names exactly one.
+func (c *Ctx) documentedExamplesAccepted(regions map[string]region) {
+	p := c.P
+	rule := "documented-example-accepted"
+	b, err := os.ReadFile(filepath.Join(p.RepoDir, "README.md"))
+	if err != nil {
+		c.Missing(rule, "README.md")
+		return
+	}
+	lines := strings.Split(string(b), "\n")
+	type example struct {
+		title string
+		start int
+		text  []string
+	}
+	var exs []example
+	heading := ""
+	for i := 0; i < len(lines); i++ {
+		l := lines[i]
+		if strings.HasPrefix(l, "#") {
+			heading = strings.TrimSpace(strings.TrimLeft(l, "# "))
+		}
+		if strings.HasPrefix(strings.TrimSpace(l), "```yaml") || strings.HasPrefix(strings.TrimSpace(l), "```yml") {
+			ex := example{title: heading, start: i + 2}
+			for i++; i < len(lines) && !strings.HasPrefix(strings.TrimSpace(lines[i]), "```"); i++ {
+				ex.text = append(ex.text, lines[i])
+			}
+			complete := false
+			for _, t := range ex.text {
+				if strings.HasPrefix(t, "backends:") {
+					complete = true
+				}
+			}
+			if complete {
+				exs = append(exs, ex)
+			}
+		}
+	}
+	// non-empty string options and the key they are written under
+	strKeys := map[string]string{"MetricsConfig.Path": "metrics.path", "ActiveHealthCheckConfig.Path": "health_checks.active.path"}
+	guardKey := func(yamlKey string) string {
+		if i := strings.LastIndex(yamlKey, "."); i >= 0 {
+			return yamlKey[:i] + ".enabled"
+		}
+		return ""
+	}
+	n := 0
+	for _, ex := range exs {
+		sc, err := readFlatYAMLText(strings.Join(ex.text, "\n"))
+		if err != nil {
+			c.Undecided(rule, "README.md/"+ex.title, fmt.Sprintf("README.md:%d", ex.start), "the example is not flat enough for the built-in YAML reader: "+err.Error())
+			continue
+		}
+		val := map[string]yamlScalar{}
+		for _, s := range sc {
+			val[s.Path] = s
+		}
+		for _, row := range tCfg {
+			key := row.YAML
+			isStr := false
+			if key == "" && row.Neq && row.Y == `k:""` {
+				key = strKeys[strings.TrimPrefix(row.X, cfgP)]
+				isStr = true
+			}
+			if key == "" || strings.Contains(key, "[]") {
+				continue
+			}
+			if row.Guard != "" {
+				g, ok := val[guardKey(key)]
+				if !ok || g.Value != "true" {
+					continue // the section is not switched on in this example
+				}
+			}
+			construct := "README.md/" + ex.title + "/" + key
+			n++
+			s, present := val[key]
+			pos := fmt.Sprintf("README.md:%d", ex.start)
+			if present {
+				pos = fmt.Sprintf("README.md:%d", ex.start+s.Line-1)
+			}
+			switch {
+			case isStr:
+				if !present || s.Value == "" {
+					c.Fail(rule, construct, pos, "the example switches the section on and leaves "+key+" out; it decodes as \"\", which validation refuses: the documented configuration does not start")
+				} else {
+					c.Pass(rule, construct, pos, key+" is set")
+				}
+			default:
+				r, okR := regions[key]
+				if !okR {
+					n--
+					continue // the constraint row itself failed; reported there
+				}
+				var v int64
+				if present {
+					v, err = strconv.ParseInt(s.Value, 10, 64)
+					if err != nil {
+						c.Fail(rule, construct, pos, key+" is not an integer: "+s.Value)
+						continue
+					}
+				}
+				if v < r.lo || v > r.hi {
+					what := fmt.Sprintf("%s = %d", key, v)
+					if !present {
+						what = "the example switches the section on and leaves " + key + " out; it decodes as 0, which"
+					}
+					c.Fail(rule, construct, pos, fmt.Sprintf("%s lies outside the validator's accept region %s: the documented configuration does not start", what, r))
+				} else {
+					c.Pass(rule, construct, pos, fmt.Sprintf("%d ∈ %s", v, r))
+				}
+			}
+		}
+	}
+	c.Floor(rule, n, 10, "options of complete configuration examples in README.md")
+}
+
+// muxPatternsCannotCollide: http.ServeMux panics when one pattern is registered twice.  Where a
+// start-up function registers a pattern taken from the configuration next to constant patterns on the
+// same mux (the metrics path next to "/health"), the validator has to refuse the configured value that
+// equals a constant pattern — otherwise an accepted configuration panics at start-up.
+func (c *Ctx) muxPatternsCannotCollide() {
+	p := c.P
+	rule := "mux-patterns-cannot-collide"
+	n := 0
+	for _, fn := range p.Funcs {
+		if !p.InScope(fn) {
+			continue
+		}
+		pk := fnPkg(fn)
+		if pk == nil || !strings.HasSuffix(pk.Pkg.Path(), "/cmd/helios") {
+			continue
+		}
+		// registrations per mux value
+		type reg struct {
+			pattern ssa.Value
+			at      ssa.Instruction
+		}
+		byMux := map[ssa.Value][]reg{}
+		for _, ci := range callsIn(fn) {
+			cn := CalleeName(ci)
+			if cn != "(*net/http.ServeMux).Handle" && cn != "(*net/http.ServeMux).HandleFunc" {
+				continue
+			}
+			args := ci.Common().Args
+			byMux[args[0]] = append(byMux[args[0]], reg{args[1], ci})
+		}
+		for _, regs := range byMux {
+			var consts []string
+			var fromCfg []reg
+			for _, r := range regs {
+				if s, ok := constStr(r.pattern); ok {
+					consts = append(consts, s)
+				} else if c.flowsFrom(r.pattern, func(v ssa.Value) bool {
+					fr, ok := fieldRefOf(v)
+					if !ok {
+						if u, isU := v.(*ssa.UnOp); isU {
+							fr, ok = fieldRefOf(u.X)
+						}
+					}
+					return ok && fr.Struct != nil && strings.HasPrefix(QualType(fr.Struct), "config.")
+				}) {
+					fromCfg = append(fromCfg, r)
+				}
+			}
+			for _, r := range fromCfg {
+				// which configuration field
+				field := ""
+				c.flowsFrom(r.pattern, func(v ssa.Value) bool {
+					if u, isU := v.(*ssa.UnOp); isU {
+						v = u.X
+					}
+					if fr, ok := fieldRefOf(v); ok && fr.Struct != nil && strings.HasPrefix(QualType(fr.Struct), "config.") {
+						field = fr.Key()
+						return true
+					}
+					return false
+				})
+				for _, k := range consts {
+					n++
+					construct := p.FuncKey(fn) + "/" + field + "≠" + k
+					refused := false
+					for _, vf := range p.Funcs {
+						vp := fnPkg(vf)
+						if vp == nil || !strings.HasSuffix(vp.Pkg.Path(), "/internal/config") {
+							continue
+						}
+						instrsOf(vf, func(in ssa.Instruction) {
+							ifi, ok := in.(*ssa.If)
+							if !ok {
+								return
+							}
+							for si, pol := range []bool{true, false} {
+								r := p.RelOf(ifi.Cond, pol, nil)
+								if r.OK && !r.Neq && r.Lo == 0 && r.Hi == 0 && strings.Contains(r.X+"|"+r.Y, "fld:"+field) && strings.Contains(r.X+"|"+r.Y, `k:"`+k+`"`) {
+									// the equal edge returns an error
+									for _, in2 := range ifi.Block().Succs[si].Instrs {
+										if ret, isRet := in2.(*ssa.Return); isRet && len(ret.Results) > 0 && !isConstNil(ret.Results[len(ret.Results)-1]) {
+											refused = true
+										}
+									}
+								}
+							}
+						})
+					}
+					c.Check(refused, rule, construct, p.InstrPos(r.at), "validation refuses the configured pattern that equals the constant one",
+						fmt.Sprintf("%s is registered on the same ServeMux as the constant pattern %q and validation accepts the value %q: http.ServeMux panics on the second registration, so an accepted configuration crashes at start-up", field, k, k))
+				}
+			}
+		}
+	}
+	c.Floor(rule, n, 1, "configured patterns registered next to constant ones")
 }
